@@ -1,4 +1,5 @@
 import clichecks
+import concchecks
 import depgraphs
 import histories
 import layouts
@@ -24,6 +25,8 @@ CHECKS = {
     "C06": histories.check_c06,
     "C07": histories.check_c07,
     "C08": layouts.check_c08,
+    "C09": concchecks.check_c09,
+    "C10": concchecks.check_c10,
     "C16": depgraphs.check_c16,
     "C19": lspchecks.check_c19,
     "C20": clichecks.check_c20,
